@@ -31,6 +31,17 @@ def gen_dat(rng, ctx, pts3, cross, malformed=None):
     if convert:
         opts.append('# convert spherical = true')
     rng.shuffle(opts)
+    # option lines are honoured wherever they stand: all in the header (usual), or some of them between / behind the rows
+    placement = rng.choice(['header', 'header', 'header', 'between', 'footer'])
+    late = []
+    if placement != 'header':
+        k = rng.randint(1, len(opts))
+        late = opts[-k:]
+        opts = opts[:-k]
+        if any(o.startswith('# dim') or o.startswith('# convert') for o in late):
+            # dim and convert spherical decide how a row is read: keep those in front (a row read before them is a different file)
+            opts += [o for o in late if o.startswith('# dim') or o.startswith('# convert')]
+            late = [o for o in late if not (o.startswith('# dim') or o.startswith('# convert'))]
     lines += opts
     if rng.random() < 0.3:
         lines.append('#')
@@ -62,11 +73,14 @@ def gen_dat(rng, ctx, pts3, cross, malformed=None):
         bad_row = k
     for k, toks in enumerate(rows):
         lines.append(sep.join(toks))
+        if placement == 'between' and late and (k == 0 or rng.random() < 0.3):
+            lines.append(late.pop())
         if rng.random() < 0.05:
             lines.append('')
         if rng.random() < 0.05:
             lines.append('# a comment between the rows')
-    return '\n'.join(lines) + '\n', {'dim': dim, 'ncomp': ncomp, 'ngc': ngc, 'ngr': ngr, 'convert': convert, 'rows': rows, 'bad_row': bad_row, 'sep': sep, 'malformed': malformed}
+    lines += late
+    return '\n'.join(lines) + '\n', {'dim': dim, 'ncomp': ncomp, 'ngc': ngc, 'ngr': ngr, 'convert': convert, 'rows': rows, 'bad_row': bad_row, 'sep': sep, 'malformed': malformed, 'option_placement': placement}
 
 
 def fmt_in(rng, v):
@@ -247,6 +261,11 @@ def main(tier, seed, replay):
             if rc == 0 or not ('entries' in err or 'terminate' in err or 'AssertThrow' in err):
                 V.violation('malformed-row-not-reported:%s:dim%d:%d-entries' % (spec['malformed'], spec['dim'], len(spec['rows'][spec['bad_row']])), dict(base, stdout_tail=out[-300:]))
             good_rows = spec['bad_row']
+            # a row before it for which the library itself throws ends the tool there (legitimately)
+            for k, it in enumerate(r['idx'][:spec['bad_row']]):
+                if it is not None and c.results[it][0] == 'ex':
+                    good_rows = k
+                    break
             V.nontrivial(('malformed', r['i']))
         else:
             good_rows = len(spec['rows'])
